@@ -345,6 +345,8 @@ def table_shape(variant, what):
     sh = Shape(name, build, obligations, initialize=False)
     sh.grid = False
     sh.spec = (variant, what)
+    from symx.harness import crash_obligations
+    sh.on_exception = crash_obligations(PROP, name, "checks.c16:replay_table", "the export of a valid solution does not succeed")
     sh.assumptions = lambda P: ([P.v("din") + P.v("eout") <= P.v("A_dur")] if "din" in P.terms else [])
     return sh
 
@@ -440,6 +442,7 @@ def ob_excel(ctx, path):
     return {"status": "unsat", "queries": len(sol.tasks) + len(sol.resources)}
 
 
+@confirm_library_failure
 def replay_table(desc):
     """real pandas / xlsxwriter on a real solution of the concrete instance with the witness schedule pinned:
     the data frame and the written workbook (read back) must show the reported values"""
